@@ -674,15 +674,22 @@ def _setup_classify(trace, matched, status, meta):
     pattern = "other"
     if status in ("spurious_received", "received_missing"):
         pk = _setup_packets(trace[:matched])
-        if status == "received_missing":          # judged MaxLat cycles after the dropped SETUP: look up to that packet
-            owed = [k for k, p in enumerate(pk) if p["good"] and p["flagged"] and p["bytes"] == 8]
-            pk = pk[:owed[-1] + 1] if owed else pk
-        poison = [k for k, p in enumerate(pk) if _is_runt(p) or _is_abort_first(p)]
-        if poison:
-            later_full = [p for p in pk[poison[-1] + 1:] if p["full_word"]]
-            if len(later_full) <= 1:
-                pattern = "next_full_word_packet_after_good_flagged_packet_of_4_to_7_bytes" if _is_runt(pk[poison[-1]]) \
+        fail = matched - 1                                    # 0-based index of the failing record
+        for k in range(len(pk) - 1, -1, -1):
+            if not (_is_runt(pk[k]) or _is_abort_first(pk[k])):
+                continue
+            victim = next((p for p in pk[k + 1:] if p["full_word"]), None)     # first later packet with a full word
+            if victim is None:
+                continue
+            if status == "received_missing":
+                hit = victim["good"] and victim["flagged"] and victim["bytes"] == 8 and \
+                    0 <= fail - victim["end"] <= SETUP_MAXLAT + 1
+            else:
+                hit = 0 <= fail - victim["end"] <= 2
+            if hit:
+                pattern = "next_full_word_packet_after_good_flagged_packet_of_4_to_7_bytes" if _is_runt(pk[k]) \
                     else "next_full_word_packet_after_flagged_packet_aborted_with_its_first_word"
+                break
     if status in ("spurious_received", "received_missing"):
         return {"clause": "received", "detail": status, "pattern": pattern}
     return {"clause": status, "pattern": pattern}
